@@ -80,6 +80,9 @@ Configs ==
   \cup { [form |-> "alias", k |-> 1, na |-> 1, use |-> "print", nest |-> "none", special |-> "rebind", host |-> "entry"],
          [form |-> "alias", k |-> 1, na |-> 1, use |-> "print", nest |-> "none", special |-> "nested", host |-> "entry"] }
   \cup { [form |-> f, k |-> 2, na |-> 2, use |-> u, nest |-> n, special |-> "swap", host |-> "entry"] : f \in Forms, u \in {"print", "macroarg"}, n \in {"none", "loop"} }
+  (* _self: a macro called above its definition, and a macro of an extending template called from its blocks (the parent defines
+     a macro of the same name with another body) *)
+  \cup { [form |-> "self", k |-> k, na |-> k, use |-> u, nest |-> "none", special |-> sp, host |-> "entry"] : k \in 0..2, u \in {"print", "set2"}, sp \in {"before", "childmacro"} }
 
 (* a second library whose macros have the same names and different bodies: importing it under an alias or name that is
    already bound replaces the binding *)
@@ -101,6 +104,8 @@ Program(c) ==
            ForS("", "v", ArrE(<<StrE("lib"), StrE("lib2"), StrE("lib")>>), NoE,
                 <<ImportS(NameE("v"), "L"), FromS(NameE("v"), << <<"m1", "q">> >>), PrintS(AttrCall(NameE("L"), "m1", <<IntE(1)>>)), PrintS(CallE("q", <<IntE(2)>>))>>, <<>>, FALSE),
            Text("$")>>
+    [] c.special = "before" -> <<Text("^")>> \o UseOf(c, CallM(c.form, MName(c.k), Args(c.na))) \o <<Text("$")>> \o Defs("t")
+    [] c.special = "childmacro" -> <<ExtendsS(StrE("cbase"))>> \o Defs("t") \o <<BlockS("body", UseOf(c, CallM(c.form, MName(c.k), Args(c.na))))>>
     [] c.special = "outer" -> Prelude(c.form) \o <<Text("^")>> \o UseOf(c, CallM(c.form, "outer", Args(c.na))) \o <<Text("$")>>
     [] c.special = "unknown" ->
          IF c.form = "alias" THEN <<ImportS(StrE("lib"), "L"), Text("^"), PrintS(AttrCall(NameE("L"), "nope", <<>>)), Text("$")>>
@@ -118,6 +123,8 @@ Templates(c) == ("t" :> IF c.host = "childblock"
                         THEN Prelude(c.form) \o <<Text("^"), BlockS("body", <<Text("base")>>), Text("$")>>
                         ELSE Program(c))
                 @@ ("lib" :> Defs("lib")) @@ ("lib2" :> Lib2) @@ ("lib3" :> Lib3)
+                @@ ("cbase" :> <<MacroS("m0", <<>>, <<Text("P0")>>), MacroS("m1", <<"p1">>, <<Text("P1")>>), MacroS("m2", <<"p1", "p2">>, <<Text("P2")>>),
+                                Text("^"), BlockS("body", <<Text("base")>>), Text("$")>>)
                 @@ (IF c.host = "entry" THEN <<>>
                     ELSE ("top" :> CASE c.host = "include" -> <<IncludeS(StrE("t"), NoE, FALSE)>>
                                      [] c.host = "embed" -> <<EmbedS(StrE("t"), NoE, FALSE, <<>>)>>
@@ -127,6 +134,7 @@ Entry(c) == IF c.host = "entry" THEN "t" ELSE "top"
 Expected(c) ==
   CASE c.special = "nested" -> "^i1(1,)i1(2,)b2(3,4,)b2(5,,)f3()f3()$"
     [] c.special = "rebind" -> "^m1(11,)n1(11,)|m1(11,)n1(11,)|m1(1,)m1(2,)n1(1,)n1(2,)m1(1,)m1(2,)$"
+    [] c.special \in {"before", "childmacro"} -> "^" \o UseExp(c, Result(c.k, c.na)) \o "$"
     [] c.special = "outer" -> "^" \o UseExp(c, "<m1(" \o (IF c.na >= 1 THEN "11" ELSE "") \o "+,)>") \o "$"
     [] c.special = "unknown" -> "^"
     [] c.special = "swap" -> IF c.nest = "loop" THEN "^" \o UseExp(c, "m2(1,x,)") \o UseExp(c, "m2(2,y,)") \o "$"
